@@ -1,4 +1,5 @@
 """C19 - surface energy of an upward wave and its delayed reflection; array time-shift helpers."""
+import hashlib
 import itertools
 import math
 
@@ -16,25 +17,45 @@ from pbt.ref import surface as ref
 PROPERTY = "C19"
 CLAUSES = []
 ASSUMPTIONS = [
-    "records: 3 <= n <= 412 samples (float ndarray, integer ndarray or list), |a| <= 1e9; dt in [1e-4, 1] or 2^-10..1; "
-    "1-5 travel times, 0 <= tt < n*dt (shorter than the record, DESIGN section 5), as scalar / list / tuple / ndarray",
+    "records: 3 <= n <= 412 samples in the random clauses, 413 .. 3e5 (thorough 2e6) in the mid-range enumerations (float "
+    "ndarray, integer ndarray, list, views), |a| <= 1e9; dt in [1e-4, 1] or 2^-10..1; 1-5 travel times in the random clauses, "
+    "6 .. 5000 in the mid-range enumerations, as scalar / list / tuple / ndarray; travel times of any length >= 0, including "
+    "longer than the record (delay up to 4n+2 samples)",
     "the delay in samples is s = 2*tt/dt evaluated in double precision (scaling by 2 is exact, so this is the correctly "
     "rounded quotient whatever the order of operations); s whole -> pure sample shift, otherwise linear interpolation",
-    "'linearly interpolated' is read as in DESIGN: the interpolant of the recorded samples, zero wherever k - s falls "
-    "outside [0, n-1] (not the interpolant of the zero-padded record)",
+    "'linearly interpolated' has two readings and either is accepted (per row): the interpolant of the recorded samples, zero "
+    "wherever k - s falls outside [0, n-1] (DESIGN), or the interpolant of the zero-padded record (a ramp over the fractional "
+    "sample in front of and behind the record)",
+    "'integrating' does not name the quadrature: the trapezoid rule and the three cumulative rectangle rules (right, left, plain "
+    "running sum) are accepted, the same rule for all rows of one result (c19-trapz-to-rect is therefore a survivor by design)",
     "margin filter: a non-whole s within 1e-9 of a whole number m (e.g. tt=0.3, dt=0.1 -> 5.999999999999999) is "
     "'ambiguous': the answer is only bracketed by {shift m, shift m without the first reflected sample, shift m without "
     "the last reflected sample} and the floors used by the length / start options by floor(x -/+ 1e-9)",
-    "reduction factors: both python scalars or both float ndarrays of one factor per travel time, values in [0, 1] "
-    "(lists and mixed scalar/array are not accepted by the code: `up_red[:, np.newaxis]`)",
-    "start option: 0 <= stt < n*dt so that floor(stt/dt) - floor(tt_i/dt) < n (a start shift longer than the record "
-    "makes the slice assignment in trim_to_length fail; outside any caller's use, DESIGN C19.2)",
-    "a travel-time sequence of length 1 may come back 1-D (as the code does) or as one row; a scalar comes back 1-D",
-    "rounding bounds: acceleration eps*(4|up| + (8+k+s)*(|a_lo|+|a_hi|)*down_red) (interpolation at a position k-s rounded "
+    "reduction factors: both python scalars (float or int) or both ndarrays (float or integer dtype) of one factor per travel "
+    "time; the quantifier ('scalar/array reductions') and the formula put no range on them: values in [0, 1] mostly, (1, 4] "
+    "(amplification) in about a fifth and [-1, 0) in about a twentieth of the non-default cases "
+    "(lists and mixed scalar/array are not accepted by the code: `up_red[:, np.newaxis]` - reported, not checked)",
+    "lengths: npts when trimmed (statement).  Untrimmed, no start: long enough for the delayed wave under either reading of the "
+    "interpolation, n+floor(max 2tt/dt) or n+ceil(max 2tt/dt).  start without trim: the statement fixes nothing; any length "
+    "from n to n + largest front padding + ceil(max 2tt/dt) + 1 is accepted and the content is compared on whatever length came back",
+    "start option: row i is moved by a whole number of samples c_i with |c_i - (stt - tt_i)/dt| < 1 (the statement does not fix "
+    "the rounding convention: floor(stt/dt)-floor(tt_i/dt), floor / ceil / round of the difference are all accepted), zero-filled "
+    "in front; 0 <= stt < n*dt (a start shift longer than the record makes the slice assignment in trim_to_length fail; outside "
+    "any caller's use, DESIGN C19.2)",
+    "a single travel time (scalar or sequence of length 1) may come back 1-D or as one row",
+    "rounding bounds: acceleration eps*(4|up| + (8+k+s)*(|a_lo|+|a_hi|)*|down_red|) (interpolation at a position k-s rounded "
     "in double); velocity eps*(2k+s+16)*dt*sum_{j<=k}(|up_j|+|down_j|); energy tol_v*(|v|+tol_v)+4 eps|E|; everything "
-    "else is asserted with equality (dyadic records with dyadic dt, delays, reductions; 2^k scaling; helper outputs)",
-    "join_values_w_shifts / join_sig_w_time_shift: shifts >= 0 (np.pad), time shifts as ndarray; put_array_in_2d_array: "
-    "integer shifts of any sign with |shift| <= n+3, list or ndarray",
+    "else is asserted with equality (dyadic records with dyadic dt, delays, reductions; 2^k scaling; helper outputs).  The "
+    "whole-batch check at mid-range sizes evaluates the definition in double precision row by row and uses 3x these bounds with "
+    "sum_{j<=k}(|up_j|+|down_j|) <= (|up_red|+2|down_red|)*sum_{j<=k}|a_j|",
+    "mid-range enumerations: delays are whole or at least 0.01 samples away from a whole number (no 'ambiguous' rows there)",
+    "join_values_w_shifts / join_sig_w_time_shift: shifts >= 0 (np.pad), time shifts as ndarray (a list raises in the code - "
+    "reported, not checked); a time shift t moves by a whole number of samples within one sample of t/dt (floor or ceil; the "
+    "statement does not fix the convention); put_array_in_2d_array: integer shifts of any sign with |shift| <= n+3 in the random "
+    "clause and up to 2n in the mid-range enumeration, list or ndarray, clip in {'none','start','end','both', None, omitted}",
+    "purity of the arguments (record / reductions / values unchanged by a call) is property C05's claim and is not asserted "
+    "here; the same argument objects are re-used by consecutive calls of one case, so a result that is wrong BECAUSE an "
+    "argument was changed by an earlier call is still reported",
 ]
 EPS = np.finfo(float).eps
 LD = np.longdouble
@@ -49,14 +70,19 @@ if _msg:
 # generators
 
 
-_DY_RED = [1.0, 0.5, 0.75, 0.25, 0.0]
+_DY_RED = [1.0, 0.5, 0.75, 0.25, 0.0, 1.5, 2.0, -0.5]
 
 
 def _reds(exact):
+    """Reduction factors: the quantifier puts no range on them (see ASSUMPTIONS)."""
     if exact:
         return st.sampled_from(_DY_RED)
     return st.one_of(st.sampled_from([1.0, 0.5, 0.9, 0.0, 0.75]),
-                     st.floats(0.0, 1.0, allow_nan=False, allow_subnormal=False))
+                     st.floats(0.0, 1.0, allow_nan=False, allow_subnormal=False),
+                     st.floats(0.0, 1.0, allow_nan=False, allow_subnormal=False),
+                     st.sampled_from([1.5, 1.25, 2.0, 3.7]),
+                     st.floats(1.0, 4.0, allow_nan=False),
+                     st.floats(-1.0, 0.0, allow_nan=False, allow_subnormal=False).filter(lambda x: x != 0 and abs(x) > 1e-6))
 
 
 def _pick(draw, seq):
@@ -67,20 +93,25 @@ def _pick(draw, seq):
 
 @st.composite
 def _delay(draw, n, exact=False):
-    """Delay q in samples (tt = q*dt/2): zero, whole (odd -> tt an odd multiple of dt/2), fractional."""
+    """Delay q in samples (tt = q*dt/2): zero, whole (odd -> tt an odd multiple of dt/2), fractional; one draw in eight is
+    LONG (travel time >= the record's duration: 2n <= q <= 4n+2)."""
     top = 2 * n - 1
     kinds = ["zero", "int", "int", "dyfrac"] if exact else (
         ["zero"] * 2 + ["int"] * 4 + ["frac"] * 6 + ["dyfrac"] * 2 + ["edge", "near"])
     kind = draw(st.sampled_from(kinds))
     if kind == "zero":
         return 0.0
-    small = draw(st.booleans())  # overlapping waves are the interesting half
+    where = draw(st.integers(0, 7))
+    small = where < 4  # overlapping waves are the interesting half
+    lo = 0
+    if where == 7:
+        lo, top = 2 * n, 4 * n + 2
     if kind == "int":
-        return float(draw(st.integers(1, min(top, 12) if small else top)))
+        return float(draw(st.integers(max(1, lo), min(top, 12) if small else top)))
     if kind == "near":  # a whole number of samples up to rounding: exercises the bracket of the margin filter
-        m = float(draw(st.integers(1, min(top, 12) if small else top)))
+        m = float(draw(st.integers(max(1, lo), min(top, 12) if small else top)))
         return float(np.nextafter(m, m + 1.0 if draw(st.booleans()) else 0.0))
-    m = draw(st.integers(0, min(top - 1, 12) if small else top - 1))
+    m = draw(st.integers(lo, min(top - 1, 12) if small else top - 1))
     if kind == "frac":
         return m + draw(st.floats(1e-3, 0.999, allow_nan=False))
     if kind == "dyfrac":
@@ -100,20 +131,29 @@ def _cases(draw, options=False, laws=False):
             "q": [draw(_delay(n, exact)) for _ in range(nt)],
             "tt_as": draw(st.sampled_from(["scalar", "list", "ndarray", "tuple"] if nt == 1 else ["list", "ndarray", "tuple"])),
             "nodal": _pick(draw, [True, False])}
-    mode = _pick(draw, ["default", "scalar", "array", "array", "array", "array"])
+    mode = _pick(draw, ["default", "scalar", "scalar", "array", "array", "array", "array", "int"])
+    if mode == "int":
+        # integer-typed factors (the repo's tests pass up_red=1): python ints or an integer ndarray
+        mode = _pick(draw, ["scalar", "array"])
+        case["red_int"] = True
+        el = st.sampled_from([1, 0, 2, 1, 3])
+    else:
+        el = _reds(exact)
     case["red"] = mode
     if mode == "scalar":
-        case["up"] = draw(_reds(exact))
-        case["down"] = case["up"] if draw(st.integers(0, 2)) == 0 else draw(_reds(exact))
+        case["up"] = draw(el)
+        case["down"] = case["up"] if draw(st.integers(0, 2)) == 0 else draw(el)
     elif mode == "array":
-        case["up"] = [draw(_reds(exact)) for _ in range(nt)]
-        case["down"] = list(case["up"]) if draw(st.integers(0, 2)) == 0 else [draw(_reds(exact)) for _ in range(nt)]
+        case["up"] = [draw(el) for _ in range(nt)]
+        case["down"] = list(case["up"]) if draw(st.integers(0, 2)) == 0 else [draw(el) for _ in range(nt)]
     if laws:
         case["nodal"], case["trim"], case["start"] = _pick(draw, list(itertools.product([True, False], repeat=3)))
     if options or laws:
-        case["r"] = draw(st.one_of(st.just(0.0), st.integers(0, n - 1).map(float),
-                                   st.floats(0.0, float(n - 1), allow_nan=False, allow_subnormal=False),
-                                   st.integers(0, min(n - 1, 12)).map(lambda i: i + 0.5)))
+        how = _pick(draw, ["zero", "whole", "frac", "half", "frac"])
+        case["r"] = {"zero": st.just(0.0), "whole": st.integers(0, n - 1).map(float),
+                     "frac": st.floats(0.0, float(n - 1), allow_nan=False, allow_subnormal=False),
+                     "half": st.integers(0, min(n - 1, 12)).map(lambda i: min(i + 0.5, float(n - 1)))}[how]
+        case["r"] = draw(case["r"])
     if laws:
         case["alpha"] = draw(st.one_of(st.integers(-6, 6).filter(lambda k: k != 0).map(lambda k: {"k2": k}),
                                        gen.log_uniform(1e-2, 1e2).map(lambda x: {"x": x})))
@@ -122,6 +162,24 @@ def _cases(draw, options=False, laws=False):
 
 # ---------------------------------------------------------------------------
 # shared pieces of the oracle
+
+
+def _build(spec):
+    return _mr_record(spec) if spec["k"] == "mr" else gen.build(spec)
+
+
+def _mr_record(spec):
+    """Record of a mid-range case (pure function of the spec): noise times a slowly varying envelope plus a slow sine and a
+    non-zero mean - every stretch of the record contributes differently, no quiet tail, a dropped block cannot cancel."""
+    n = int(spec["n"])
+    rs = np.random.RandomState(int(spec["seed"]))
+    x = np.arange(n, dtype=float) / n
+    env = {"up": 0.6 + 0.8 * x, "down": 1.4 - 0.8 * x, "hump": 0.6 + 0.8 * np.sin(math.pi * x)}[spec.get("env", "up")]
+    a = rs.standard_normal(n) * env + 0.11 + 0.3 * np.sin(2 * math.pi * float(spec.get("cyc", 7.3)) * x + 1.0)
+    g = int(spec.get("grid", 0))
+    if g:
+        a = np.round(a * 2.0 ** g) / 2.0 ** g
+    return np.ascontiguousarray(a * 10.0 ** int(spec.get("amp", 0)), dtype=float)
 
 
 class _Row(object):
@@ -140,7 +198,7 @@ class _Row(object):
         else:
             self.kind = "frac"
             m, f = ref.split_delay(self.s)
-            self.variants = [(m, f, None)]
+            self.variants = [(m, f, None), (m, f, "pad")]   # the two readings of "linearly interpolated"
         self.half_floor = _floor_cands(self.s / 2.0)  # floor(tt/dt); halving is exact
 
 
@@ -152,19 +210,28 @@ def _floor_cands(x):
     return sorted({max(0, int(math.floor(x - AMB))), max(0, int(math.floor(x + AMB)))})
 
 
+def _near_ints(x):
+    """The whole numbers c with |c - x| < 1 (x itself when it is whole), with the AMB margin."""
+    r = round(x)
+    if x == r:
+        return [int(r)]
+    return list(range(int(math.floor(x - AMB)), int(math.ceil(x + AMB)) + 1))
+
+
 class _Setup(object):
-    def __init__(self, case, ctx):
+    def __init__(self, case, ctx, asig=None):
         spec = case["rec"]
-        a0 = gen.build(spec)
+        a0 = _build(spec)
         self.arg = gen.as_container(spec, a0)
         self.a = np.array(self.arg, dtype=float)  # what the library sees
         self.n = len(self.a)
         self.dt = case["dt"]
-        self.tts = [q * self.dt / 2.0 for q in case["q"]]
+        self.tts = list(case["tts"]) if "tts" in case else [q * self.dt / 2.0 for q in case["q"]]
         self.rows = [_Row(tt, self.dt) for tt in self.tts]
         self.nt = len(self.tts)
         self.nodal = case["nodal"]
         mode = case["red"]
+        self.red_int = bool(case.get("red_int"))
         if mode == "array":
             self.ur = [float(x) for x in case["up"]]
             self.dr = [float(x) for x in case["down"]]
@@ -175,9 +242,16 @@ class _Setup(object):
             self.ur = [1.0] * self.nt
             self.dr = [1.0] * self.nt
         self.mode = mode
+        self._red_kw = None
         self.stt = float(case.get("r", 0.0)) * self.dt
         self.stt_floor = _floor_cands(self.stt / self.dt)
-        self.asig = ctx.lib(eqsig.AccSignal, self.arg, self.dt)
+        self.smax = max(r.s for r in self.rows)
+        if asig is None:
+            self.asig = ctx.lib(eqsig.AccSignal, self.arg, self.dt)
+        else:
+            # history: an existing signal object is given the record of this case
+            ctx.lib(asig.reset_values, self.arg)
+            self.asig = asig
         # the result depends on the record, not on what was computed on the signal object before: a third of the cases read
         # the velocity first, another third switch the object's own velocity series to the rectangle rule first
         pre = (len(self.arg) + int(round(1e6 * self.dt)) + len(self.tts)) % 3
@@ -189,13 +263,20 @@ class _Setup(object):
             ctx.cls("pre=rectangle-rule-velocity")
         # classification
         ctx.cls("kind=" + spec["k"], gen.size_class(self.n), "red=" + mode, "nodal" if self.nodal else "antinodal",
-                "tt=" + case["tt_as"], "nt=%d" % self.nt if self.nt < 3 else "nt>=3")
+                "tt=" + case["tt_as"], "nt=%d" % self.nt if self.nt < 3 else "nt>=3", "red-int" if self.red_int else None)
+        if mode != "default":
+            ctx.cls("red>1" if any(x > 1 for x in self.ur + self.dr) else None,
+                    "red<0" if any(x < 0 for x in self.ur + self.dr) else None)
+        kinds = set()
         for r in self.rows:
-            ctx.cls("delay=" + ("zero" if r.s == 0 else r.kind))
+            kinds.add("delay=" + ("zero" if r.s == 0 else r.kind))
             if r.kind == "int" and r.s % 2 == 1:
-                ctx.cls("delay=odd")
+                kinds.add("delay=odd")
             if r.s > self.n:
-                ctx.cls("delay>n")
+                kinds.add("delay>n")
+            if r.s >= 2 * self.n:
+                kinds.add("delay>=2n")
+        ctx.cls(*sorted(kinds))
         if spec.get("as"):
             ctx.cls("as=" + spec["as"])
         if case.get("exact"):
@@ -233,13 +314,22 @@ class _Setup(object):
         return list(tts)
 
     def red_kwargs(self, ur=None, dr=None):
+        """Reduction arguments.  With the case's own factors the SAME objects are handed to every call of the case."""
+        own = ur is None and dr is None
+        if own and self._red_kw is not None:
+            return dict(self._red_kw)
         ur = self.ur if ur is None else ur
         dr = self.dr if dr is None else dr
         if self.mode == "array":
-            return {"up_red": np.array(ur, dtype=float), "down_red": np.array(dr, dtype=float)}
-        if self.mode == "scalar":
-            return {"up_red": ur[0], "down_red": dr[0]}
-        return {}
+            dty = np.int64 if self.red_int else float
+            kw = {"up_red": np.array(ur, dtype=dty), "down_red": np.array(dr, dtype=dty)}
+        elif self.mode == "scalar":
+            kw = {"up_red": int(ur[0]), "down_red": int(dr[0])} if self.red_int else {"up_red": ur[0], "down_red": dr[0]}
+        else:
+            kw = {}
+        if own:
+            self._red_kw = kw
+        return dict(kw)
 
     def opt_kwargs(self, case=None):
         kw = {"nodal": self.nodal}
@@ -248,14 +338,15 @@ class _Setup(object):
         return kw
 
     # -- reference -----------------------------------------------------------
-    def series(self, i, variant, K, exact=False):
+    def series(self, i, variant, K, exact=False, rule="trap"):
         """Reference acceleration and energy of row i on K samples with their rounding bounds."""
         m, f, drop = variant
+        pad = drop == "pad"
         dt = self.dt
         acc = ref.accel(self.a, K, m, f, self.ur[i], self.dr[i], self.nodal, drop)
-        v = ref.velocity(acc, dt)
+        v = ref.velocity(acc, dt, rule)
         e = ref.energy(v)
-        U, D = ref.accel_magnitude(self.a, K, m, f, self.ur[i], self.dr[i])
+        U, D = ref.accel_magnitude(self.a, K, m, f, self.ur[i], self.dr[i], pad)
         if self.rows[i].kind == "amb":  # the code interpolates with a weight ~ulp(m) on a neighbouring sample
             D = D + abs(self.dr[i]) * (ref.delayed_magnitude(self.a, K, m + 1, 0.0) +
                                        (ref.delayed_magnitude(self.a, K, m - 1, 0.0) if m >= 1 else 0.0))
@@ -274,7 +365,7 @@ class _Setup(object):
         """One scalar bound for the energy of row i (used by the metamorphic laws): the bound of `series` at the last sample."""
         m, f, _ = self.rows[i].variants[0]
         K = self.n + m + 2
-        U, D = ref.accel_magnitude(self.a, K, m, f, self.ur[i], self.dr[i])
+        U, D = ref.accel_magnitude(self.a, K, m, f, self.ur[i], self.dr[i], f != 0)
         if self.rows[i].kind == "amb":
             D = D + abs(self.dr[i]) * (ref.delayed_magnitude(self.a, K, m + 1, 0.0) +
                                        (ref.delayed_magnitude(self.a, K, m - 1, 0.0) if m >= 1 else 0.0))
@@ -283,29 +374,35 @@ class _Setup(object):
         emax = float(np.max(np.abs(e_row))) if len(e_row) else 0.0
         return tol_v * (math.sqrt(2 * emax) + 2 * tol_v) + 8 * EPS * emax
 
-    def length_cands(self):
+    def length_range(self):
+        """(smallest, largest) admissible series length under the current options (see ASSUMPTIONS 'lengths')."""
         n = self.n
         if self.trim:
-            return {n}
+            return n, n
+        smax = self.smax
         if not self.start:
-            return {n + c for c in _floor_cands(max(r.s for r in self.rows))}
-        out = set()
-        for fs in self.stt_floor:
-            for combo in itertools.product(*[r.half_floor for r in self.rows]):
-                out.add(n + max(0, max(fs - ft for ft in combo)))
-        return out
+            return n + min(_floor_cands(smax)), n + int(math.ceil(smax + (AMB if smax != round(smax) else 0.0)))
+        front = max(0, max(max(self.shift_cands(i)) for i in range(self.nt)))
+        return n, n + front + int(math.ceil(smax)) + 1
+
+    def length_ok(self, length):
+        lo, hi = self.length_range()
+        return lo <= length <= hi
 
     def shift_cands(self, i):
+        """Whole-sample moves of row i under the start option: every c with |c - (stt - tt_i)/dt| < 1."""
         if not self.start:
             return [0]
-        return sorted({fs - ft for fs in self.stt_floor for ft in self.rows[i].half_floor})
+        row = self.rows[i]
+        out = {fs - ft for fs in self.stt_floor for ft in row.half_floor}   # floor(stt/dt) - floor(tt_i/dt)
+        out.update(_near_ints(self.stt / self.dt - row.s / 2.0))
+        return sorted(out)
 
 
-def _as_rows(ctx, su, out, what, scalar_arg):
+def _as_rows(ctx, su, out, what, scalar_arg=False):
     out = np.asarray(out)
     if su.nt == 1:
-        if scalar_arg:
-            ctx.check(out.ndim == 1, "%s: scalar travel time returned shape %s, expected 1-D" % (what, out.shape))
+        # a single travel time (scalar or a sequence of one): 1-D or one row - the statement does not say which
         ctx.check(out.ndim == 1 or (out.ndim == 2 and out.shape[0] == 1),
                   "%s: one travel time returned shape %s" % (what, out.shape))
         return np.atleast_2d(out)
@@ -323,37 +420,72 @@ def _shifted(x, shift, length):
     return out
 
 
-def _check_output(ctx, su, out, which, what, exact=False):
-    """`out` (rows) must have one of the candidate lengths and every row must equal a candidate reading of the
-    reference, moved by a candidate start shift (one candidate each unless the case is ambiguous)."""
-    length = out.shape[1]
-    cands = su.length_cands()
-    ctx.check(length in cands, "%s: series length %d, expected %s (n=%d, trim=%s start=%s stt/dt=%r delays=%r)" % (
-        what, length, sorted(cands), su.n, su.trim, su.start, su.stt / su.dt, [r.s for r in su.rows]))
+def _check_length(ctx, su, length, what):
+    lo, hi = su.length_range()
+    ctx.check(lo <= length <= hi, "%s: series length %d, expected %s (n=%d, trim=%s start=%s stt/dt=%r largest delay=%r)" % (
+        what, length, ("%d" % lo) if lo == hi else "%d..%d" % (lo, hi), su.n, su.trim, su.start, su.stt / su.dt, su.smax))
+
+
+def _row_mismatch(su, i, got_row, which, exact, rule):
+    """None when row i equals a candidate reading of the reference (moved by a candidate start shift), else the closest miss."""
+    row = su.rows[i]
+    length = len(got_row)
+    got = got_row.astype(LD)
+    cands = [(variant, sh) for variant in row.variants for sh in su.shift_cands(i)]
+    best = None
+    for variant, sh in cands:
+        K = max(2, length - min(sh, 0))
+        x, tol = su.series(i, variant, K, exact=exact, rule=rule)[which]
+        want = _shifted(x, sh, length)
+        wtol = _shifted(tol, sh, length)
+        over = np.abs(got - want) - (wtol + TINY)
+        j = int(np.argmax(over))
+        if not over[j] > 0:
+            return None  # this reading is matched
+        if best is None or over[j] < best[0]:
+            best = (float(over[j]), j, float(got[j]), float(want[j]), float(wtol[j]), len(cands))
+    return best
+
+
+def _check_output(ctx, su, out, which, what, exact=False, rows=None):
+    """`out` (rows) must have an admissible length and every row must equal a candidate reading of the reference, moved by
+    a candidate start shift (one candidate each unless the case is ambiguous or the statement leaves a convention open).
+    For the energy the quadrature rule is one of ref.RULES, the same for all rows."""
+    _check_length(ctx, su, out.shape[1], what)
     ctx.finite(out, what)
-    for i, row in enumerate(su.rows):
-        got = out[i].astype(LD)
-        cands = [(variant, sh) for variant in row.variants for sh in su.shift_cands(i)]
-        best = None
-        for variant, sh in cands:
-            K = max(2, length - min(sh, 0))
-            x, tol = su.series(i, variant, K, exact=exact)[which]
-            want = _shifted(x, sh, length)
-            wtol = _shifted(tol, sh, length)
-            over = np.abs(got - want) - (wtol + TINY)
-            j = int(np.argmax(over))
-            if not over[j] > 0:
-                best = None
-                break  # this reading is matched
-            if best is None or over[j] < best[0]:
-                best = (float(over[j]), j, float(got[j]), float(want[j]), float(wtol[j]))
-        if best is not None:
-            _, j, g, w, t = best
-            ctx.fail("%s row %d (delay %r samples, up_red=%r down_red=%r, %s, trim=%s start=%s stt/dt=%r): sample %d is %r, "
-                     "expected %r (tol %.3g)%s" % (
-                         what, i, row.s, su.ur[i], su.dr[i], "nodal" if su.nodal else "anti-nodal", su.trim, su.start,
-                         su.stt / su.dt, j, g, w, t,
-                         " [closest of %d bracket candidates]" % len(cands) if len(cands) > 1 else ""))
+    first = None
+    for rule in (ref.RULES if which == "e" else ("trap",)):
+        miss = None
+        for i in (range(su.nt) if rows is None else rows):
+            best = _row_mismatch(su, i, out[i], which, exact, rule)
+            if best is not None:
+                miss = (i, best)
+                break
+        if miss is None:
+            if rule != "trap":
+                ctx.cls("rule=" + rule)
+            return
+        if first is None:
+            first = miss
+    i, (_, j, g, w, t, nc) = first
+    row = su.rows[i]
+    ctx.fail("%s row %d of %d (delay %r samples, up_red=%r down_red=%r, %s, trim=%s start=%s stt/dt=%r, n=%d): sample %d is %r, "
+             "expected %r (tol %.3g)%s" % (
+                 what, i, su.nt, row.s, su.ur[i], su.dr[i], "nodal" if su.nodal else "anti-nodal", su.trim, su.start,
+                 su.stt / su.dt, su.n, j, g, w, t, " [closest of %d candidate readings; no quadrature rule fits]" % nc))
+
+
+def _check_cum(ctx, c, e, what):
+    """Cumulative absolute change: non-decreasing from >= 0 (exact) and the running sum of |dE| of the library's own energy
+    (which the caller checks against the definition), for every row at once in double precision."""
+    ctx.check(c.shape == e.shape, "%s: shape %s differs from energy shape %s" % (what, c.shape, e.shape))
+    ctx.finite(c, what)
+    ctx.check(bool(np.all(c[:, 0] >= 0)) and bool(np.all(c[:, 1:] >= c[:, :-1])),
+              "%s decreases somewhere (min step %r)" % (what, float(np.min(np.diff(c, axis=1), initial=0.0))))
+    steps = np.abs(np.diff(e, axis=1, prepend=0.0))  # change from the state of rest, E = 0
+    cref = np.cumsum(steps, axis=1)
+    k = np.arange(1, e.shape[1] + 1, dtype=float)
+    ctx.close(c, cref, 2 * EPS * (k + 6) * cref, "%s vs running sum of |dE|" % what)
 
 
 def _nontrivial(su):
@@ -370,39 +502,39 @@ _OPTS = ["opt=%s%s%s" % (a, b, c) for a in "NA" for b in "Tt" for c in "Ss"]
 @clause(CLAUSES, "definition", _cases(), quick=400, thorough=2000,
         rule="records of all kinds (n 3..412, float/int/list), dt log-uniform/repo rates/dyadic, 1-5 travel times as "
              "scalar/list/tuple/ndarray with delay 2tt/dt in {0, whole (odd and even), m+U(0,1), m+dyadic fraction, "
-             "m+/-10^-3..-8, m+/-1ulp}, reductions default/scalar/ndarray, nodal in {T,F}; non-trivial = non-zero record and "
-             ">= 1 fractional delay",
-        oracle="reference model: long-double blend f*a[k-m-1]+(1-f)*a[k-m], up_red*a -/+ down_red*delayed, trapezoid, "
+             "m+/-10^-3..-8, m+/-1ulp}, one delay in eight 2n..4n+2 samples (travel time longer than the record), reductions "
+             "default/scalar/ndarray (float or integer typed; in [0,1], above 1, negative), nodal in {T,F}; non-trivial = "
+             "non-zero record and >= 1 fractional delay",
+        oracle="reference model: long-double blend f*a[k-m-1]+(1-f)*a[k-m] (record zero outside its samples, or zero-padded), "
+               "up_red*a -/+ down_red*delayed, trapezoid (or one rectangle rule throughout), "
                "v|v|/2 for calc_surface_energy and get_time_shift_motions; equality of the acceleration on dyadic cases, "
                "otherwise the derived eps bounds; near-whole delays bracketed",
-        require={"red=array": 0.30, "delay=frac": 0.30, "delay=int": 0.25, "delay=zero": 0.10, "antinodal": 0.25,
-                 "nodal": 0.25, "delay=odd": 0.10, "delay=amb": 0.03},
+        require={"red=array": 0.30, "red=scalar": 0.15, "delay=frac": 0.30, "delay=int": 0.25, "delay=zero": 0.10, "antinodal": 0.25,
+                 "nodal": 0.25, "delay=odd": 0.10, "delay=amb": 0.03, "delay>=2n": 0.08, "red>1": 0.08, "red<0": 0.02,
+                 "red-int": 0.04},
         min_nontrivial=0.30)
 def definition(case, ctx):
     su = _Setup(case, ctx)
     ctx.nt(_nontrivial(su))
-    before = su.a.copy()
     tt = su.tt_arg(case)
-    scalar = not hasattr(tt, "__len__")
     kw = dict(su.red_kwargs(), nodal=su.nodal)
     if su.nodal and case["red"] == "default":
         kw.pop("nodal")  # documented default: nodal=True
         ctx.cls("nodal-default")
-    acc = _as_rows(ctx, su, ctx.lib(surface.get_time_shift_motions, su.asig, tt, **kw), "get_time_shift_motions", scalar)
+    acc = _as_rows(ctx, su, ctx.lib(surface.get_time_shift_motions, su.asig, tt, **kw), "get_time_shift_motions")
     _check_output(ctx, su, acc, "acc", "get_time_shift_motions", exact=bool(case.get("exact")) and not su.ambiguous)
-    e = _as_rows(ctx, su, ctx.lib(surface.calc_surface_energy, su.asig, tt, **kw), "calc_surface_energy", scalar)
+    e = _as_rows(ctx, su, ctx.lib(surface.calc_surface_energy, su.asig, tt, **kw), "calc_surface_energy")
     _check_output(ctx, su, e, "e", "calc_surface_energy")
-    ctx.check(e.shape == acc.shape, "energy shape %s differs from motion shape %s" % (e.shape, acc.shape))
-    ctx.equal(np.asarray(su.asig.values, dtype=float), before, "record changed by the call")
 
 
 @clause(CLAUSES, "options", _cases(options=True), quick=300, thorough=1500,
         rule="same generator plus stt = r*dt with r in {0, whole, U(0,n-1), i+1/2}; every case is evaluated under all four "
              "(trim, start) combinations with its drawn nodal flag, so all eight option triples are exercised; "
              "non-trivial = non-zero record and >= 1 fractional delay",
-        oracle="reference model: length n (trim), n+floor(max 2tt/dt) (neither), n+max(0,max_i(floor(stt/dt)-floor(tt_i/dt))) "
-               "(start only); row i = reference series moved by floor(stt/dt)-floor(tt_i/dt) samples, zero-filled in front "
-               "(start) - for calc_surface_energy, get_time_shift_motions; calc_cum_abs_surface_energy same shape; eps bounds",
+        oracle="reference model: length n (trim), n+floor|ceil(max 2tt/dt) (neither), anything from n to the no-loss length "
+               "(start only); row i = reference series moved by a whole number of samples within one of (stt-tt_i)/dt, zero-filled "
+               "in front (start) - for calc_surface_energy, get_time_shift_motions; calc_cum_abs_surface_energy = running sum of "
+               "|dE| of that energy, non-decreasing; eps bounds",
         require=dict([(o, 0.25) for o in _OPTS] + [("red=array", 0.30), ("stt=frac", 0.10), ("stt=whole", 0.05),
                                                    ("delay=odd", 0.10), ("start-advance", 0.15), ("start-delay", 0.15)]),
         min_nontrivial=0.30)
@@ -410,41 +542,36 @@ def options(case, ctx):
     su = _Setup(case, ctx)
     ctx.nt(_nontrivial(su))
     tt = su.tt_arg(case)
-    scalar = not hasattr(tt, "__len__")
     for trim, start in ((False, False), (True, False), (False, True), (True, True)):
         su.set_options(ctx, trim, start)
         kw = dict(su.red_kwargs(), **su.opt_kwargs())
         if start:
             ctx.cls("start-advance" if any(min(su.shift_cands(i)) < 0 for i in range(su.nt)) else None,
                     "start-delay" if any(max(su.shift_cands(i)) > 0 for i in range(su.nt)) else None)
-        e = _as_rows(ctx, su, ctx.lib(surface.calc_surface_energy, su.asig, tt, **kw), "calc_surface_energy", scalar)
+        e = _as_rows(ctx, su, ctx.lib(surface.calc_surface_energy, su.asig, tt, **kw), "calc_surface_energy")
         _check_output(ctx, su, e, "e", "calc_surface_energy")
-        acc = _as_rows(ctx, su, ctx.lib(surface.get_time_shift_motions, su.asig, tt, **kw), "get_time_shift_motions", scalar)
+        acc = _as_rows(ctx, su, ctx.lib(surface.get_time_shift_motions, su.asig, tt, **kw), "get_time_shift_motions")
         _check_output(ctx, su, acc, "acc", "get_time_shift_motions")
-        c = _as_rows(ctx, su, ctx.lib(surface.calc_cum_abs_surface_energy, su.asig, tt, **kw),
-                     "calc_cum_abs_surface_energy", scalar)
-        ctx.check(c.shape == e.shape, "cumulative series shape %s differs from energy shape %s (trim=%s start=%s)" % (
-            c.shape, e.shape, trim, start))
+        c = _as_rows(ctx, su, ctx.lib(surface.calc_cum_abs_surface_energy, su.asig, tt, **kw), "calc_cum_abs_surface_energy")
+        _check_cum(ctx, c, e, "calc_cum_abs_surface_energy (trim=%s start=%s)" % (trim, start))
 
 
 @clause(CLAUSES, "laws", _cases(laws=True), quick=400, thorough=2000,
         rule="same generator with options and a scale factor alpha (2^k, k in -6..6, or log-uniform 1e-2..1e2); "
              "non-trivial = non-zero record and some row with a positive final cumulative energy",
         oracle="metamorphic / differential: cumulative series non-decreasing (exact) and equal to the running sum of |dE| "
-               "(eps*(k+6)*sum); tt=0, nodal, equal reductions -> identically 0 (exact); E(alpha*a) = alpha^2 E(a) "
-               "(exact for 2^k, 4 alpha^2 tol_E otherwise); batch row i = single call with (tt_i, up_i, down_i) on the "
-               "common length (2 tol_E)",
+               "(eps*(k+6)*sum); tt=0, nodal, equal reductions -> identically 0 (exact); E(alpha*a) = alpha^2 E(a) and the same for "
+               "the cumulative series (exact for 2^k, derived bound otherwise); batch row i = single call with (tt_i, up_i, down_i) "
+               "on the common length (2 tol_E)",
         require=dict([(o, 0.02) for o in _OPTS] + [("red=array", 0.30), ("alpha=2^k", 0.25), ("alpha=real", 0.25),
                                                    ("nt>=3", 0.30)]),
         min_nontrivial=0.30)
 def laws(case, ctx):
     su = _Setup(case, ctx)
     tt = su.tt_arg(case)
-    scalar = not hasattr(tt, "__len__")
     kw = dict(su.red_kwargs(), **su.opt_kwargs(case))
-    e = _as_rows(ctx, su, ctx.lib(surface.calc_surface_energy, su.asig, tt, **kw), "calc_surface_energy", scalar)
-    c = _as_rows(ctx, su, ctx.lib(surface.calc_cum_abs_surface_energy, su.asig, tt, **kw),
-                 "calc_cum_abs_surface_energy", scalar)
+    e = _as_rows(ctx, su, ctx.lib(surface.calc_surface_energy, su.asig, tt, **kw), "calc_surface_energy")
+    c = _as_rows(ctx, su, ctx.lib(surface.calc_cum_abs_surface_energy, su.asig, tt, **kw), "calc_cum_abs_surface_energy")
     ctx.check(c.shape == e.shape, "cumulative series shape %s differs from energy shape %s" % (c.shape, e.shape))
     ctx.finite(c, "cumulative absolute energy")
     ctx.nt(bool(np.any(su.a != 0)) and bool(np.any(c[:, -1] > 0)))
@@ -475,35 +602,404 @@ def laws(case, ctx):
         ctx.check(not np.any(z0), "%s: zero travel time, nodal, equal reductions: row is not identically zero (max %r)" % (
             fn.__name__, float(np.max(np.abs(z0)))))
     tols = [su.row_scale_tol(i, e[i]) for i in range(su.nt)]
-    # alpha^2 scaling
+    # alpha^2 scaling of the energy and of its cumulative absolute change
     al = case["alpha"]
     alpha = 2.0 ** al["k2"] if "k2" in al else float(al["x"])
     ctx.cls("alpha=2^k" if "k2" in al else "alpha=real")
     sig2 = ctx.lib(eqsig.AccSignal, su.a * alpha, su.dt)
-    e2 = _as_rows(ctx, su, ctx.lib(surface.calc_surface_energy, sig2, tt, **kw), "calc_surface_energy", scalar)
+    e2 = _as_rows(ctx, su, ctx.lib(surface.calc_surface_energy, sig2, tt, **kw), "calc_surface_energy")
+    c2 = _as_rows(ctx, su, ctx.lib(surface.calc_cum_abs_surface_energy, sig2, tt, **kw), "calc_cum_abs_surface_energy")
     ctx.check(e2.shape == e.shape, "scaled record: shape %s vs %s" % (e2.shape, e.shape))
+    ctx.check(c2.shape == c.shape, "scaled record: cumulative shape %s vs %s" % (c2.shape, c.shape))
     if "k2" in al:
         ctx.close(e2, e * alpha ** 2, 0.0, "E(2^%d a) vs 4^%d E(a)" % (al["k2"], al["k2"]))
+        ctx.close(c2, c * alpha ** 2, 0.0, "cumulative |dE|(2^%d a) vs 4^%d cumulative |dE|(a)" % (al["k2"], al["k2"]))
     else:
         for i in range(su.nt):
             ctx.close(e2[i], e[i] * alpha ** 2, 4 * alpha ** 2 * tols[i], "row %d: E(alpha a) vs alpha^2 E(a), alpha=%r" % (i, alpha))
+            # every |dE_k| of the two series differs by at most 2 * (4 alpha^2 tol): the running sums by 2k times that
+            ctx.close(c2[i], c[i] * alpha ** 2, alpha ** 2 * (8 * tols[i] * k + 4 * EPS * (k + 6) * c[i]),
+                      "row %d: cumulative |dE|(alpha a) vs alpha^2 cumulative |dE|(a), alpha=%r" % (i, alpha))
     # each row of the batch equals the single-travel-time result
     for i in range(su.nt):
-        skw = dict(su.opt_kwargs(case))
-        if su.mode == "array":
-            skw.update(up_red=np.array([su.ur[i]]), down_red=np.array([su.dr[i]]))
-        elif su.mode == "scalar":
-            skw.update(up_red=su.ur[i], down_red=su.dr[i])
-        one = su.tts[i] if i % 2 == 0 else np.array([su.tts[i]])
-        for fn, batch in ((surface.calc_surface_energy, e), (surface.calc_cum_abs_surface_energy, c)):
-            s1 = np.asarray(ctx.lib(fn, su.asig, one, **skw))
-            if s1.ndim == 2 and s1.shape[0] == 1:
-                s1 = s1[0]
-            ctx.check(s1.ndim == 1, "%s: single travel time returned shape %s" % (fn.__name__, s1.shape))
-            m = min(len(s1), length)
-            ctx.check(m >= su.n, "%s: single-travel-time series has %d < n samples" % (fn.__name__, m))
-            bound = 2 * tols[i] if fn is surface.calc_surface_energy else 2 * tols[i] * (2 * length) + EPS * (length + 6) * float(batch[i][m - 1])
-            ctx.close(batch[i][:m], s1[:m], bound, "%s: batch row %d vs single travel time %r" % (fn.__name__, i, su.tts[i]))
+        _single_vs_batch(ctx, su, i, {surface.calc_surface_energy: e, surface.calc_cum_abs_surface_energy: c}, tols[i],
+                         su.opt_kwargs(case))
+
+
+def _single_vs_batch(ctx, su, i, batches, tol_e, okw):
+    """Row i of the batch results equals the single-travel-time call with (tt_i, up_i, down_i) on their common length."""
+    skw = dict(okw)
+    if su.mode == "array":
+        dty = np.int64 if su.red_int else float
+        skw.update(up_red=np.array([su.ur[i]], dtype=dty), down_red=np.array([su.dr[i]], dtype=dty))
+    elif su.mode == "scalar":
+        skw.update(su.red_kwargs())
+    one = su.tts[i] if i % 2 == 0 else np.array([su.tts[i]])
+    for fn, batch in batches.items():
+        length = batch.shape[1]
+        s1 = np.asarray(ctx.lib(fn, su.asig, one, **skw))
+        if s1.ndim == 2 and s1.shape[0] == 1:
+            s1 = s1[0]
+        ctx.check(s1.ndim == 1, "%s: single travel time returned shape %s" % (fn.__name__, s1.shape))
+        m = min(len(s1), length)
+        ctx.check(m >= su.n, "%s: single-travel-time series has %d < n samples" % (fn.__name__, m))
+        bound = 2 * tol_e if fn is not surface.calc_cum_abs_surface_energy else \
+            2 * tol_e * (2 * length) + EPS * (length + 6) * float(batch[i][m - 1])
+        ctx.close(batch[i][:m], s1[:m], bound, "%s: batch row %d of %d vs single travel time %r (n=%d)" % (
+            fn.__name__, i, su.nt, su.tts[i], su.n))
+
+
+# ---------------------------------------------------------------------------
+# mid-range sizes (DESIGN 8.5): records of 413 .. 3e5 samples (thorough 2e6), 6 .. 5000 travel times, products rows x samples of
+# 1e5 .. 1.5e7 (thorough 6e7).  Deterministic enumerations: sizes from gen.size_ladder / gen.product_pairs (one per logarithmic
+# bin, placed by a hash of VERIF_SEED, plus the integer literals mined from the source under test); every other parameter is a
+# hash of (VERIF_SEED, tag, index).  EVERY row of every result is compared with the definition evaluated in double precision
+# (ref.row64: slices and a blend, no interpolation routine) under the derived bounds; a hash-chosen sample of rows that always
+# contains the rows -1, 0, +1 modulo 2^k (k = 5..12) is also compared with the long-double reference and with the
+# single-travel-time call.
+
+
+def _hu(*parts):
+    """Uniform number in [0, 1): hash of (VERIF_SEED, parts)."""
+    t = ":".join(str(x) for x in (gen.run_seed(), "c19") + parts)
+    return (int(hashlib.blake2b(t.encode(), digest_size=8).hexdigest(), 16) % 10 ** 9) / 1e9
+
+
+def _hpick(seq, *parts):
+    return seq[min(len(seq) - 1, int(_hu(*parts) * len(seq)))]
+
+
+def _hint(lo, hi, *parts):
+    """Log-uniform integer in [lo, hi]."""
+    return int(min(hi, max(lo, math.exp(math.log(lo) + (math.log(hi + 1) - math.log(lo)) * _hu(*parts)))))
+
+
+def _sd(*parts):
+    return int(_hu("seed", *parts) * (2 ** 31 - 1))
+
+
+def _deal(cases, shard, nshards):
+    """Deal the cases to the shards by cost (largest first, always to the least loaded shard): deterministic."""
+    order = sorted(range(len(cases)), key=lambda i: (-cases[i].get("cost", 1.0), i))
+    load = [0.0] * nshards
+    mine = []
+    for i in order:
+        k = min(range(nshards), key=lambda j: (load[j], j))
+        load[k] += cases[i].get("cost", 1.0)
+        if k == shard:
+            mine.append(i)
+    return [cases[i] for i in sorted(mine)]
+
+
+_MR_DTS = [0.01, 0.005, 0.02, 0.002, 0.025, 2.0 ** -7, 0.1, 0.001]
+_MR_CONTAINERS = [None, None, None, "list", "view", "readonly", "negstride", "int"]
+
+
+def _mr_tts(c):
+    """Travel times of a mid-range case: delays (in samples) zero / whole / m+U(0.01,0.99) / m+dyadic fraction up to c['qmax'],
+    a few of them longer than twice the record when c['long']; whole delays are exact (2*tt/dt == q), none is within 0.01 of
+    a whole number without being one."""
+    rs = np.random.RandomState(int(c["seed"]) ^ 0x5A17)
+    nt, dt, n = int(c["nt"]), float(c["dt"]), int(c["n"])
+    qmax = max(2, int(c["qmax"]))
+    kind = rs.randint(0, 8, nt)
+    m = rs.randint(0, qmax, nt).astype(float)
+    if c.get("long"):
+        far = rs.rand(nt) < (0.34 if nt <= 5 else 0.02)
+        m[far] = rs.randint(2 * n, 3 * n + 3, int(np.sum(far)))
+    q = np.where(kind <= 2, m, np.where(kind <= 5, m + rs.uniform(0.01, 0.99, nt), m + rs.choice([0.5, 0.25, 0.75, 0.125], nt)))
+    if nt > 1:
+        q[int(rs.randint(0, nt))] = 0.0
+    tts = []
+    for qi in q:
+        tt = float(qi) * dt / 2.0
+        if qi == round(qi):
+            for cand in (tt, np.nextafter(tt, np.inf), np.nextafter(tt, 0.0)):
+                if 2.0 * float(cand) / dt == qi:
+                    tt = float(cand)
+                    break
+            else:
+                tt = (float(qi) + 0.37) * dt / 2.0
+        sq = 2.0 * tt / dt
+        if sq != round(sq) and abs(sq - round(sq)) < 0.005:
+            raise HarnessError("mid-range travel time generator produced a near-whole delay %r" % sq)
+        tts.append(tt)
+    return tts
+
+
+def _mr_setup(c, ctx, asig=None, seed_xor=0, n=None):
+    """Case dict of the random clauses from the plain parameters of a mid-range case, and its _Setup."""
+    rs = np.random.RandomState((int(c["seed"]) ^ 0x7E57 ^ seed_xor) % (2 ** 31))
+    nt = int(c["nt"])
+    spec = {"k": "mr", "n": int(n if n is not None else c["n"]), "seed": (int(c["seed"]) ^ seed_xor) % (2 ** 31),
+            "env": c.get("env", "up"), "cyc": c.get("cyc", 7.3), "amp": c.get("amp", 0), "grid": c.get("grid", 0)}
+    if c.get("as"):
+        spec["as"] = c["as"]
+    case = {"rec": spec, "dt": float(c["dt"]), "exact": False, "tts": _mr_tts(dict(c, n=spec["n"])), "tt_as": c.get("tt_as", "ndarray"),
+            "nodal": bool(c["nodal"]), "red": c["red"]}
+    if c["red"] in ("scalar", "array"):
+        k = 1 if c["red"] == "scalar" else nt
+        if c.get("red_int"):
+            case["red_int"] = True
+            up, down = rs.randint(0, 4, k), rs.randint(0, 4, k)
+        else:
+            up, down = rs.uniform(0.3, 1.0, k), rs.uniform(0.3, 1.0, k)
+            wild = rs.rand(k) < 0.2
+            up = np.where(wild, rs.uniform(-1.0, 3.0, k), up)
+            down = np.where(rs.rand(k) < 0.2, rs.uniform(-1.0, 3.0, k), down)
+            if c.get("red_equal"):
+                down = up.copy()
+        case["up"] = float(up[0]) if k == 1 and c["red"] == "scalar" else [float(x) for x in up]
+        case["down"] = float(down[0]) if k == 1 and c["red"] == "scalar" else [float(x) for x in down]
+    if "r" in c:
+        case["r"] = min(float(c["r"]), float(spec["n"] - 1))
+        case["trim"], case["start"] = bool(c["trim"]), bool(c["start"])
+    return case, _Setup(case, ctx, asig=asig)
+
+
+def _pick_rows(nt, count, *tag):
+    """Rows of a batch for the expensive per-row checks: first, last, the rows -1, 0, +1 modulo 2^k (k = 5..12: one
+    representative of every such class that exists, chosen by hash) and hash-chosen others, about `count` in all."""
+    rows = {0, 1, nt // 2, nt - 2, nt - 1}
+    for k in range(5, 13):
+        b = 2 ** k
+        for r in (b - 1, 0, 1):
+            members = list(range(r if r or True else b, nt, b))
+            members = [i for i in members if i >= b - 1]   # the first seam is at b-1 | b | b+1
+            if members:
+                rows.add(_hpick(members, "seam", k, r, nt, *tag))
+                rows.add(members[0])
+    j = 0
+    while len(rows) < min(nt, count):
+        rows.add(int(_hu("row", j, nt, *tag) * nt))
+        j += 1
+    return sorted(i for i in rows if 0 <= i < nt)
+
+
+def _row64_mismatch(su, i, got_row, which, rule, pad, A_ext):
+    """Double-precision form of _row_mismatch for one reading (quadrature rule, padded or not)."""
+    row = su.rows[i]
+    if row.kind == "amb":
+        raise HarnessError("whole-batch check does not bracket near-whole delays (row %d, delay %r)" % (i, row.s))
+    m, f, _ = row.variants[0]
+    length = len(got_row)
+    n = su.n
+    fac = abs(su.ur[i]) + 2.0 * abs(su.dr[i])
+    best = None
+    for sh in su.shift_cands(i):
+        K = max(2, length - min(sh, 0))
+        kk = np.arange(K, dtype=float)
+        if which == "acc":
+            x = ref.row64(su.a, K, m, f, su.ur[i], su.dr[i], su.nodal, None, rule, pad)
+            U, D = ref.accel_magnitude(su.a, K, m, f, su.ur[i], su.dr[i], pad)
+            tol = 3 * EPS * (4 * U + (8 + kk + m + f) * D)
+        else:
+            x = ref.row64(su.a, K, m, f, su.ur[i], su.dr[i], su.nodal, su.dt, rule, pad)
+            Ak = A_ext(K)
+            tol_v = EPS * (2 * kk + m + f + 16) * su.dt * fac * Ak
+            tol = 3 * (tol_v * (np.sqrt(2 * np.abs(x)) + tol_v) + 4 * EPS * np.abs(x))
+        over = np.abs(got_row - _shifted(x, sh, length)) - (_shifted(tol, sh, length) + TINY)
+        j = int(np.argmax(over))
+        if not over[j] > 0:
+            return None
+        if best is None or over[j] < best[0]:
+            best = (float(over[j]), j, float(got_row[j]), float(_shifted(x, sh, length)[j]), float(_shifted(tol, sh, length)[j]))
+    return best
+
+
+def _check_all_rows(ctx, su, out, which, what):
+    """Every row of `out` against the definition in double precision (see the section comment)."""
+    _check_length(ctx, su, out.shape[1], what)
+    ctx.finite(out, what)
+    A = np.cumsum(np.abs(su.a))
+    cache = {}
+
+    def A_ext(K):
+        if K not in cache:
+            cache.clear()
+            cache[K] = A[:K] if K <= su.n else np.concatenate([A, np.full(K - su.n, A[-1])])
+        return cache[K]
+    out = np.asarray(out, dtype=float)
+    first = None
+    readings = [(rule, pad) for rule in (ref.RULES if which == "e" else ("trap",)) for pad in (False, True)]
+    for rule, pad in readings:
+        miss = None
+        for i in range(su.nt):
+            best = _row64_mismatch(su, i, out[i], which, rule, pad, A_ext)
+            if best is not None:
+                miss = (i, best)
+                break
+        if miss is None:
+            return
+        if first is None:
+            first = miss
+    i, (_, j, g, w, t) = first
+    row = su.rows[i]
+    ctx.fail("%s (%d rows x %d samples, n=%d) row %d (delay %r samples, up_red=%r down_red=%r, %s, trim=%s start=%s stt/dt=%r): "
+             "sample %d is %r, the definition gives %r (tol %.3g) [no reading of the interpolation / quadrature fits all rows]" % (
+                 what, su.nt, out.shape[1], su.n, i, row.s, su.ur[i], su.dr[i], "nodal" if su.nodal else "anti-nodal",
+                 su.trim, su.start, su.stt / su.dt, j, g, w, t))
+
+
+_FNS = {"e": surface.calc_surface_energy, "acc": surface.get_time_shift_motions, "cum": surface.calc_cum_abs_surface_energy}
+
+
+def _mr_check(c, ctx, su=None, case=None, sample=10):
+    """The functions named in c['fns'] on one mid-range case: every row (double precision), sampled rows (long double,
+    single-travel-time call), the cumulative series against the running sum of |dE|."""
+    if su is None:
+        case, su = _mr_setup(c, ctx)
+    tt = su.tt_arg(case)
+    kw = dict(su.red_kwargs(), **su.opt_kwargs())
+    if "r" not in case and su.nodal and c.get("drop_default"):
+        kw.pop("nodal")
+    rows = _pick_rows(su.nt, sample, c["n"], c["nt"])
+    e = None
+    for name in c["fns"]:
+        if name == "cum" and e is None:
+            e = _as_rows(ctx, su, ctx.lib(_FNS["e"], su.asig, tt, **kw), "calc_surface_energy")
+            _check_all_rows(ctx, su, e, "e", "calc_surface_energy")
+        out = _as_rows(ctx, su, ctx.lib(_FNS[name], su.asig, tt, **kw), _FNS[name].__name__)
+        if name == "cum":
+            _check_cum(ctx, out, e, "calc_cum_abs_surface_energy (%d x %d)" % out.shape)
+            continue
+        _check_all_rows(ctx, su, out, name, _FNS[name].__name__)
+        _check_output(ctx, su, out, name, _FNS[name].__name__, rows=rows)
+        if name == "e":
+            e = out
+            for i in rows[:: max(1, len(rows) // 6)]:
+                _single_vs_batch(ctx, su, i, {_FNS["e"]: e}, su.row_scale_tol(i, e[i]), su.opt_kwargs())
+    ctx.cls("fns=" + "+".join(c["fns"]), "rows<=5" if su.nt <= 5 else ("rows<=64" if su.nt <= 64 else (
+        "rows<=700" if su.nt <= 700 else "rows>700")), "product>4e6" if su.nt * (su.n + su.smax) > 4e6 else None,
+        "n>=20000" if su.n >= 20000 else None)
+    ctx.nt(True)
+    return case, su
+
+
+def _mr_common(tag, i, n, nt):
+    """Hash-chosen options of a mid-range case."""
+    c = {"n": int(n), "nt": int(nt), "seed": _sd(tag, i), "dt": _hpick(_MR_DTS, tag, "dt", i),
+         "env": _hpick(["up", "down", "hump"], tag, "env", i), "cyc": round(3 + 20 * _hu(tag, "cyc", i), 3),
+         "nodal": _hu(tag, "nodal", i) < 0.5, "red": _hpick(["default", "scalar", "array", "array"], tag, "red", i),
+         "red_int": _hu(tag, "ri", i) < 0.12, "tt_as": _hpick(["ndarray", "list", "tuple"], tag, "tta", i),
+         "as": _hpick(_MR_CONTAINERS, tag, "as", i), "drop_default": _hu(tag, "dd", i) < 0.5}
+    if c["as"] == "int":
+        c["amp"] = 2
+    if nt == 1 and _hu(tag, "sc", i) < 0.5:
+        c["tt_as"] = "scalar"
+    if _hu(tag, "opt", i) < 0.6:
+        c["trim"], c["start"] = _hpick([(True, False), (False, True), (True, True), (False, False)], tag, "ts", i)
+        kind = _hpick(["zero", "whole", "frac", "frac"], tag, "stt", i)
+        c["r"] = {"zero": 0.0, "whole": float(_hint(1, max(1, min(n - 1, 3000)), tag, "r", i)),
+                  "frac": round(_hint(1, max(1, min(n - 1, 3000)), tag, "r", i) - 1 + 0.05 + 0.9 * _hu(tag, "rf", i), 4)}[kind]
+    return c
+
+
+def _mid_enum(tier, shard, nshards):
+    if tier == "quick":
+        sizes = sorted(set(gen.size_ladder(413, 300000, 14, "c19:n")) | {int(300000 * (1 + 0.1 * _hu("top")))})
+    else:
+        sizes = sorted(set(gen.size_ladder(413, 2000000, 30, "c19:n:t", mined_limit=16)) | set(gen.ladder(413, 300000, 14, "c19:n"))
+                       | {int(2000000 * (1 + 0.05 * _hu("top:t")))})
+    cases = []
+    for i, n in enumerate(sizes):
+        nt = 1 + int(5 * _hu("mid", "nt", i))
+        c = _mr_common("mid", i, n, nt)
+        c["qmax"] = _hpick([40, 400, max(2, n // 2), 2 * n - 1], "mid", "qmax", i)
+        c["long"] = _hu("mid", "long", i) < 0.4
+        c["fns"] = ["acc", "e", "cum"]
+        c["cost"] = nt * n * (3.0 if c["long"] else 1.5)
+        cases.append(c)
+    return _deal(cases, shard, nshards)
+
+
+@enum_clause(CLAUSES, "mid-range", _mid_enum,
+             rule="records of 413 .. 3e5 samples (thorough 2e6; gen.size_ladder: one length per logarithmic bin placed by a hash of "
+                  "VERIF_SEED, plus lengths around the integer literals of the source under test), noise x envelope + sine + offset, "
+                  "1-5 travel times (zero / whole / fractional delays up to 40, 400, n/2 or 2n samples, sometimes 2n..3n), hash-chosen "
+                  "reductions (default / scalar / array, float or integer, some above 1 or negative), nodal, trim/start/stt, containers",
+             oracle="reference model over the WHOLE output: every row of get_time_shift_motions and calc_surface_energy against the "
+                    "definition in double precision (3x the derived eps bounds) and in long double; calc_cum_abs_surface_energy "
+                    "non-decreasing and equal to the running sum of |dE|; rows against the single-travel-time call",
+             exhaustive_note="the laddered record lengths", quick_shards=4)
+def mid_range(c, ctx):
+    _mr_check(c, ctx, sample=5)
+
+
+def _prod_enum(tier, shard, nshards):
+    quick = tier == "quick"
+    top = 1.5e7 if quick else 6e7
+    pairs = list(gen.product_pairs(1e5, top, 12 if quick else 26, (6, 5000), (413, 300000 if quick else 1000000), "c19:prod"))
+    # every octave of the number of rows on its own (cheap records), so that a window on len(travel_times) alone is entered
+    for j, nt in enumerate(gen.size_ladder(6, 5000, 12 if quick else 28, "c19:nt")):
+        pairs.append((int(nt), _hint(413, 3000, "prod", "n", j)))
+    cases = []
+    for i, (nt, n) in enumerate(pairs):
+        c = _mr_common("prod", i, n, nt)
+        # the product that matters is rows x (samples + largest delay): keep the delays short for the big ones
+        c["qmax"] = _hpick([40, 400, 400, max(2, min(n // 2, 4000))], "prod", "qmax", i)
+        c["long"] = nt * n < 1e6 and _hu("prod", "long", i) < 0.3
+        prod = nt * (n + c["qmax"]) * (3 if c["long"] else 1)
+        if prod > 4e6:
+            c["fns"] = [_hpick(["e", "e", "acc", "cum"], "prod", "fn", i)]
+        else:
+            c["fns"] = ["acc", "e", "cum"]
+        c["cost"] = prod * len(c["fns"])
+        cases.append(c)
+    return _deal(cases, shard, nshards)
+
+
+@enum_clause(CLAUSES, "mid-range-products", _prod_enum,
+             rule="batches of 6 .. 5000 travel times on records of 413 .. 3e5 samples: products rows x samples laddered over 1e5 .. 1.5e7 "
+                  "(thorough 6e7) with a hash-chosen split (gen.product_pairs; mined literals aimed at), plus a ladder of the number "
+                  "of rows alone on short records; options as in mid-range; above 4e6 elements one function per case",
+             oracle="as mid-range: EVERY row against the double-precision definition; rows {first, last, -1|0|+1 mod 2^k for k=5..12, "
+                    "hash-chosen others} also against the long-double reference and the single-travel-time call",
+             exhaustive_note="the laddered (rows, samples) pairs", quick_shards=4)
+def mid_range_products(c, ctx):
+    _mr_check(c, ctx, sample=28)
+
+
+def _opt_enum(tier, shard, nshards):
+    cases = []
+    i = 0
+    reps = 1 if tier == "quick" else 3
+    for rep in range(reps):
+        for nodal, trim, start in itertools.product([True, False], repeat=3):
+            for sttk in ("zero", "whole", "frac"):
+                for red in ("default", "scalar", "array", "int"):
+                    n = _hint(500, 20000 if rep == 0 else 120000, "opt", "n", i)
+                    nt = _hint(1, 40, "opt", "nt", i)
+                    c = _mr_common("opt", i, n, nt)
+                    c.update(nodal=nodal, trim=trim, start=start, red=red if red != "int" else _hpick(["scalar", "array"], "opt", "ri2", i),
+                             red_int=red == "int", red_equal=_hu("opt", "req", i) < 0.3)
+                    c["r"] = {"zero": 0.0, "whole": float(_hint(1, n - 1, "opt", "r", i)),
+                              "frac": round(_hint(1, n - 1, "opt", "r", i) - 1 + 0.05 + 0.9 * _hu("opt", "rf", i), 4)}[sttk]
+                    c["qmax"] = _hpick([40, 400, max(2, n // 2), 2 * n - 1], "opt", "qmax", i)
+                    c["long"] = _hu("opt", "long", i) < 0.3
+                    c["fns"] = ["acc", "e", "cum"]
+                    c["history"] = _hpick(["none", "reset-same-length", "reset-other-length"], "opt", "hist", i)
+                    c["cost"] = nt * n * (3.0 if c["long"] else 1.5)
+                    cases.append(c)
+                    i += 1
+    return _deal(cases, shard, nshards)
+
+
+@enum_clause(CLAUSES, "mid-range-options", _opt_enum,
+             rule="cross product nodal x trim x start x stt in {0, whole, fractional}*dt x reductions in {default, scalar, array, integer "
+                  "typed} (96 combinations; thorough 3x with other sizes) on records of 500 .. 20000 (thorough 120000) samples with "
+                  "1 .. 40 travel times; two thirds of the cases continue as a history: the same AccSignal object is given another "
+                  "record (same / other length) by reset_values and everything is evaluated again",
+             oracle="as mid-range for all three functions; after reset_values the results must be those of the new record (reference "
+                    "model again, not a comparison with a fresh object only)",
+             exhaustive_note="the 96 option combinations", quick_shards=4)
+def mid_range_options(c, ctx):
+    case, su = _mr_check(c, ctx, sample=8)
+    ctx.cls("history=" + c["history"])
+    if c["history"] != "none":
+        n2 = su.n if c["history"] == "reset-same-length" else max(413, int(su.n * (0.6 + 0.8 * _hu("n2", c["seed"]))))
+        case2, su2 = _mr_setup(c, ctx, asig=su.asig, seed_xor=0x1234567, n=n2)
+        _mr_check(dict(c, n=n2), ctx, su=su2, case=case2, sample=6)
 
 
 # ---------------------------------------------------------------------------
@@ -511,71 +1007,25 @@ def laws(case, ctx):
 
 
 def _huge_enum(tier, shard, nshards):
-    items = [{"n": 20000, "nq": 900, "red": "scalar", "nodal": True, "seed": 3}]
+    items = [{"n": 20000, "nt": 900, "red": "scalar", "nodal": True, "seed": 3}]
     if tier != "quick":
-        items += [{"n": 20000, "nq": 900, "red": "array", "nodal": False, "seed": 4},
-                  {"n": 33000, "nq": 700, "red": "scalar", "nodal": False, "seed": 5},
-                  {"n": 9000, "nq": 2100, "red": "array", "nodal": True, "seed": 6},
-                  {"n": 20000, "nq": 900, "red": "default", "nodal": False, "seed": 7}]
+        items += [{"n": 20000, "nt": 900, "red": "array", "nodal": False, "seed": 4},
+                  {"n": 33000, "nt": 700, "red": "scalar", "nodal": False, "seed": 5},
+                  {"n": 9000, "nt": 2100, "red": "array", "nodal": True, "seed": 6},
+                  {"n": 20000, "nt": 900, "red": "default", "nodal": False, "seed": 7}]
     for i, it in enumerate(items):
         if i % nshards == shard:
-            yield it
-
-
-def _huge_case(c):
-    rs = np.random.RandomState(c["seed"])
-    q = rs.uniform(0.0, 400.0, c["nq"])
-    q[::3] = np.round(q[::3])            # a third whole-sample delays
-    q[1] = 0.0
-    case = {"rec": {"k": "quake", "n": c["n"], "seed": c["seed"]}, "dt": 0.01, "exact": False, "q": [float(x) for x in q],
-            "tt_as": "ndarray", "nodal": c["nodal"], "red": c["red"]}
-    if c["red"] == "scalar":
-        case["up"], case["down"] = 0.9, 0.8
-    elif c["red"] == "array":
-        case["up"] = [float(x) for x in rs.uniform(0.5, 1.0, c["nq"])]
-        case["down"] = [float(x) for x in rs.uniform(0.5, 1.0, c["nq"])]
-    return case
+            yield dict(it, dt=0.01, qmax=400, fns=["e"], tt_as="ndarray", seed=it["seed"] + 1000 * gen.run_seed())
 
 
 @enum_clause(CLAUSES, "huge-batch", _huge_enum,
              rule="fixed long records (9000-33000 samples) with 700-2100 travel times (delays 0..400 samples, a third whole), "
-                  "default / scalar / per-row reductions; 20 rows spread over the batch (first, last, every ~50th) are checked",
-             oracle="differential: batch row i == the single-travel-time call (2 tol_E); reference model for four of the rows",
+                  "default / scalar / per-row reductions",
+             oracle="every row against the double-precision definition; rows {first, last, -1|0|+1 mod 2^k, hash-chosen} against the "
+                    "long-double reference and the single-travel-time call (2 tol_E)",
              exhaustive_note="the listed batches", quick_shards=1)
 def huge_batch(c, ctx):
-    case = _huge_case(c)
-    su = _Setup(case, ctx)
-    ctx.nt(True)
-    tt = su.tt_arg(case)
-    kw = dict(su.red_kwargs(), nodal=su.nodal)
-    e = _as_rows(ctx, su, ctx.lib(surface.calc_surface_energy, su.asig, tt, **kw), "calc_surface_energy", False)
-    length = e.shape[1]
-    ctx.check(length in su.length_cands(), "huge batch: series length %d, expected %s" % (length, sorted(su.length_cands())))
-    nq = su.nt
-    picks = sorted(set([0, 1, 2, nq // 2, nq - 3, nq - 2, nq - 1] + list(range(7, nq, max(1, nq // 14)))))
-    for i in picks:
-        skw = {"nodal": su.nodal}
-        if su.mode == "array":
-            skw.update(up_red=np.array([su.ur[i]]), down_red=np.array([su.dr[i]]))
-        elif su.mode == "scalar":
-            skw.update(up_red=su.ur[i], down_red=su.dr[i])
-        s1 = np.asarray(ctx.lib(surface.calc_surface_energy, su.asig, su.tts[i], **skw))
-        if s1.ndim == 2 and s1.shape[0] == 1:
-            s1 = s1[0]
-        m = min(len(s1), length)
-        ctx.check(m >= su.n, "single-travel-time series has %d < n samples" % m)
-        ctx.close(e[i][:m], s1[:m], 2 * su.row_scale_tol(i, e[i]), "huge batch (%d x %d): row %d vs single travel time %r" % (
-            nq, su.n, i, su.tts[i]))
-    # four rows against the definition
-    for i in (picks[0], picks[len(picks) // 2], picks[-2], picks[-1]):
-        row = su.rows[i]
-        ok = False
-        for variant in row.variants:
-            x, tol = su.series(i, variant, max(2, length))["e"]
-            if np.all(np.abs(e[i].astype(LD) - x[:length]) <= tol[:length] + TINY):
-                ok = True
-                break
-        ctx.check(ok, "huge batch: row %d (delay %r samples) does not match the shifted-wave definition" % (i, row.s))
+    _mr_check(c, ctx, sample=30)
 
 
 # ---------------------------------------------------------------------------
@@ -593,7 +1043,7 @@ def _shift_cases(draw):
     case = {"vals": spec,
             "shifts": draw(st.lists(st.integers(lo, hi), min_size=ns, max_size=ns)),
             "shifts_as": draw(st.sampled_from(["list", "ndarray"])),
-            "clip": _pick(draw, ["none", "start", "end", "both", "default"]),
+            "clip": _pick(draw, ["none", "start", "end", "both", "default", "None"]),
             "jshifts": draw(st.lists(st.integers(0, n + 3), min_size=1, max_size=5)),
             "jtype": _pick(draw, ["add", "sub", "sub", "default"]),
             "dt": draw(gen.dts(1e-3, 1.0)),
@@ -631,7 +1081,7 @@ def _ref_join(values, shifts, sub):
 
 @clause(CLAUSES, "shift-helpers", _shift_cases(), quick=500, thorough=2500,
         rule="values n 1..40 (float/int/list), 1-5 integer shifts in [-(n+3), n+3] (mixed / all negative / all positive / "
-             "all zero), list or ndarray, clip in {none,start,end,both,omitted}; join shifts >= 0 with jtype add/sub/omitted; "
+             "all zero), list or ndarray, clip in {none,start,end,both,None,omitted}; join shifts >= 0 with jtype add/sub/omitted; "
              "time shifts r*dt, r whole or fractional; non-trivial = non-zero values and a non-zero shift",
         oracle="reference model (double loop over rows and columns, column 0 = original position of values[0]); equality",
         require={"clip=none": 0.04, "clip=start": 0.04, "clip=end": 0.04, "clip=both": 0.04, "mixed-sign": 0.06,
@@ -655,9 +1105,11 @@ def shift_helpers(case, ctx):
         ctx.cls("shift>=n")
     ctx.nt(bool(np.any(vals != 0)) and (neg or pos))
     sarg = np.array(shifts) if case["shifts_as"] == "ndarray" else list(shifts)
-    before = vals.copy()
     if clip == "default":
         out = ctx.lib(ts.put_array_in_2d_array, arg, sarg)
+        want = _ref_put(vals, shifts, "none")
+    elif clip == "None":   # documented: "clip: str or none"
+        out = ctx.lib(ts.put_array_in_2d_array, arg, sarg, clip=None)
         want = _ref_put(vals, shifts, "none")
     else:
         out = ctx.lib(ts.put_array_in_2d_array, arg, sarg, clip=clip)
@@ -674,11 +1126,11 @@ def shift_helpers(case, ctx):
         out = ctx.lib(ts.join_values_w_shifts, arg, jarg, jtype=jt)
     ctx.check(out is not None, "join_values_w_shifts returned None")
     ctx.equal(out, _ref_join(vals, js, jt == "sub"), "join_values_w_shifts(n=%d, shifts=%r, jtype=%r)" % (n, js, jt))
-    # joining by time shifts: floor(t/dt) samples
+    # joining by time shifts: a whole number of samples within one sample of t/dt (the statement does not say floor or round)
     dt = case["dt"]
     times = np.array([r * dt for r in case["tr"]])
-    fl = [_floor_cands(t / dt) for t in times]
-    if any(len(f) > 1 for f in fl):
+    fl = [sorted(set(_floor_cands(t / dt)) | set(c for c in _near_ints(t / dt) if c >= 0)) for t in times]
+    if any(len(_floor_cands(t / dt)) > 1 for t in times):
         ctx.amb()
         ctx.cls("ambiguous")
     sig = ctx.lib(eqsig.Signal if len(js) % 2 else eqsig.AccSignal, arg, dt)
@@ -695,6 +1147,169 @@ def shift_helpers(case, ctx):
             ok = True
             break
     if not ok:
-        want = _ref_join(vals, [f[-1] for f in fl], jt == "sub")
-        ctx.equal(out, want, "join_sig_w_time_shift(n=%d, t/dt=%r, jtype=%r)" % (n, [float(t / dt) for t in times], jt))
-    ctx.equal(np.array(arg, dtype=float), before, "values changed by the helpers")
+        want = _ref_join(vals, [int(math.floor(t / dt)) for t in times], jt == "sub")
+        ctx.equal(out, want, "join_sig_w_time_shift(n=%d, t/dt=%r, jtype=%r) [no floor / ceil reading of the shifts fits]" % (
+            n, [float(t / dt) for t in times], jt))
+
+
+# ---------------------------------------------------------------------------
+# the helpers at mid-range sizes: values of 47 .. 3e5 samples, 6 .. 5000 shift rows, products rows x width of 1e5 .. 1.5e7
+
+
+def _gather_rows(vals, shifts, lo, width, r0, r1):
+    """Rows r0..r1 of the shifted-copies matrix by index arithmetic (a gather: out[i, c] = vals[lo + c - shift_i] where that
+    index exists, else 0) - the library scatters slices instead."""
+    n = len(vals)
+    J = (np.arange(lo, lo + width, dtype=np.int64)[None, :] - np.asarray(shifts[r0:r1], dtype=np.int64)[:, None])
+    ok = (J >= 0) & (J < n)
+    return np.where(ok, vals[np.clip(J, 0, n - 1)], 0.0)
+
+
+def _validate_gather():
+    v = np.array([3.0, -1.0, 4.0, 1.5])
+    for shifts, clip in (([2, -1, 0], "none"), ([-3, -1], "end"), ([5, 1, 0], "start"), ([-2, 6], "both"), ([0], "none")):
+        want = _ref_put(v, shifts, clip)
+        lo = min(0, min(shifts)) if clip in ("none", "end") else 0
+        if not np.array_equal(_gather_rows(v, shifts, lo, want.shape[1], 0, len(shifts)), want):
+            raise HarnessError("C19: gather reference of the shift helpers disagrees with the loop reference")
+
+
+def _helper_enum(tier, shard, nshards):
+    quick = tier == "quick"
+    pairs = list(gen.product_pairs(1e5, 1.5e7 if quick else 6e7, 10 if quick else 22, (1, 5000), (47, 300000 if quick else 2000000), "c19:hp"))
+    for j, nr in enumerate(gen.size_ladder(6, 5000, 8 if quick else 20, "c19:hr")):
+        pairs.append((int(nr), _hint(47, 2000, "hp", "n", j)))
+    for j, n in enumerate(gen.size_ladder(47, 300000 if quick else 2000000, 10 if quick else 24, "c19:hn")):
+        pairs.append((1 + int(5 * _hu("hp", "nr", j)), int(n)))
+    cases = []
+    for i, (nr, n) in enumerate(pairs):
+        fn = _hpick(["put", "put", "join", "joinsig"], "hp", "fn", i)
+        reach = _hpick([3, 400, max(1, n // 3), n + 3, 2 * n], "hp", "reach", i)
+        if nr * (n + 2 * reach) > (2.2e7 if quick else 8e7):
+            reach = min(reach, 400)
+        cases.append({"n": int(n), "nr": int(nr), "seed": _sd("hp", i), "fn": fn, "reach": int(reach),
+                      "sign": _hpick(["any", "any", "neg", "pos"], "hp", "sign", i),
+                      "clip": _hpick(["none", "start", "end", "both", "default", "None"], "hp", "clip", i),
+                      "jtype": _hpick(["add", "sub", "default"], "hp", "jt", i),
+                      "as": _hpick(["ndarray", "ndarray", "list", "int"], "hp", "as", i),
+                      "shifts_as": _hpick(["ndarray", "list"], "hp", "sas", i),
+                      "dtk": _hpick([0, 3, 7, 10], "hp", "dtk", i), "half": _hu("hp", "half", i) < 0.4,
+                      "cost": float(nr) * (n + reach)})
+    return _deal(cases, shard, nshards)
+
+
+@enum_clause(CLAUSES, "mid-range-helpers", _helper_enum,
+             rule="values of 47 .. 3e5 samples (thorough 2e6; distinct noise + offset; ndarray / list / integer array), 1 .. 5000 shift rows, "
+                  "products rows x width laddered over 1e5 .. 1.5e7 (thorough 6e7), shifts up to 3 / 400 / n/3 / n+3 / 2n of any sign "
+                  "(put) or >= 0 (join), clip in {none,start,end,both,None,omitted}, jtype add/sub/omitted, time shifts r*dt and "
+                  "(r+1/2)*dt with dt = 2^-k",
+             oracle="reference model over the WHOLE output: gather by index arithmetic (validated against the double loop at import), "
+                    "equality; time shifts: floor or ceil of t/dt per row",
+             exhaustive_note="the laddered (rows, samples) pairs", quick_shards=4)
+def mid_range_helpers(c, ctx):
+    n, nr = int(c["n"]), int(c["nr"])
+    rs = np.random.RandomState(int(c["seed"]))
+    vals = rs.standard_normal(n) * (0.6 + 0.8 * np.arange(n) / n) + 0.11
+    if c["as"] == "int":
+        vals = np.round(vals * 100.0)
+        vals[vals == 0] = 7.0
+        arg = vals.astype(np.int64)
+    elif c["as"] == "list":
+        arg = [float(v) for v in vals]
+    else:
+        arg = vals.copy()
+    reach = int(c["reach"])
+    fn = c["fn"]
+    ctx.cls("fn=" + fn, "as=" + c["as"], "rows<=5" if nr <= 5 else ("rows<=64" if nr <= 64 else ("rows<=700" if nr <= 700 else "rows>700")),
+            gen.size_class(n), "reach>=n" if reach >= n else None)
+    ctx.nt(True)
+    if fn == "put":
+        lo_s, hi_s = {"any": (-reach, reach), "neg": (-reach, -1), "pos": (1, reach)}[c["sign"]]
+        shifts = rs.randint(lo_s, hi_s + 1, nr)
+        clip = c["clip"]
+        ctx.cls("clip=" + clip, "sign=" + c["sign"])
+        sarg = shifts.copy() if c["shifts_as"] == "ndarray" else [int(x) for x in shifts]
+        if clip == "default":
+            out = ctx.lib(ts.put_array_in_2d_array, arg, sarg)
+        else:
+            out = ctx.lib(ts.put_array_in_2d_array, arg, sarg, clip=None if clip == "None" else clip)
+        eff = "none" if clip in ("default", "None") else clip
+        lo = min(0, int(shifts.min())) if eff in ("none", "end") else 0
+        hi = n + max(0, int(shifts.max())) if eff in ("none", "start") else n
+        out = np.asarray(out)
+        ctx.shape(out, (nr, hi - lo), "put_array_in_2d_array(n=%d, %d shifts in [%d, %d], clip=%r)" % (n, nr, shifts.min(), shifts.max(), clip))
+        _compare_gather(ctx, out, vals, shifts, lo, None, "put_array_in_2d_array(n=%d, %d rows, clip=%r)" % (n, nr, clip))
+        return
+    jt = c["jtype"]
+    ctx.cls("jtype=" + jt)
+    kw = {} if jt == "default" else {"jtype": jt}
+    sign = -1.0 if jt == "sub" else 1.0
+    if fn == "join":
+        shifts = rs.randint(0, reach + 1, nr)
+        sarg = shifts.copy() if c["shifts_as"] == "ndarray" else [int(x) for x in shifts]
+        out = np.asarray(ctx.lib(ts.join_values_w_shifts, arg, sarg, **kw))
+        ctx.shape(out, (nr, n + int(shifts.max())), "join_values_w_shifts(n=%d, %d shifts, jtype=%r)" % (n, nr, jt))
+        _compare_gather(ctx, out, vals, shifts, 0, sign, "join_values_w_shifts(n=%d, %d rows, jtype=%r)" % (n, nr, jt))
+        return
+    # join_sig_w_time_shift: dt = 2^-k, so t/dt is exactly r or r + 1/2
+    dt = 2.0 ** -int(c["dtk"])
+    r = rs.randint(0, reach + 1, nr).astype(float)
+    if c["half"]:
+        r = r + np.where(rs.rand(nr) < 0.5, 0.5, 0.0)
+    times = r * dt
+    sig = ctx.lib(eqsig.AccSignal if nr % 2 else eqsig.Signal, arg, dt)
+    out = np.asarray(ctx.lib(ts.join_sig_w_time_shift, sig, times, **kw))
+    lo_c, hi_c = np.floor(r).astype(np.int64), np.ceil(r).astype(np.int64)
+    ctx.check(out.ndim == 2 and out.shape[0] == nr and n + int(lo_c.max()) <= out.shape[1] <= n + int(hi_c.max()),
+              "join_sig_w_time_shift(n=%d, %d time shifts): shape %s, expected (%d, %d..%d)" % (
+                  n, nr, out.shape, nr, n + int(lo_c.max()), n + int(hi_c.max())))
+    width = out.shape[1]
+    # rows whose shift is whole have one reading; for the others floor and ceil are both tried (row by row)
+    a = _gather_full(vals, lo_c, width, sign)
+    bad = np.nonzero(np.any(out != a, axis=1))[0]
+    if len(bad):
+        b = _gather_full(vals, hi_c, width, sign, rows=bad)
+        still = bad[np.any(out[bad] != b, axis=1)]
+        if len(still):
+            i = int(still[0])
+            j = int(np.nonzero(out[i] != a[i])[0][0])
+            ctx.fail("join_sig_w_time_shift(n=%d, %d rows, jtype=%r): row %d (t/dt=%r) column %d is %r, expected %r [neither floor nor "
+                     "ceil of t/dt fits]" % (n, nr, jt, i, float(r[i]), j, out[i, j], a[i, j]))
+
+
+def _gather_full(vals, shifts, width, sign, rows=None):
+    n = len(vals)
+    idx = np.arange(len(shifts)) if rows is None else np.asarray(rows)
+    out = np.empty((len(idx), width))
+    orig = np.zeros(width)
+    orig[:n] = vals
+    step = max(1, int(2e6 // max(1, width)))
+    for r0 in range(0, len(idx), step):
+        sub = idx[r0:r0 + step]
+        out[r0:r0 + len(sub)] = orig[None, :] + sign * _gather_rows(vals, np.asarray(shifts)[sub], 0, width, 0, len(sub))
+    return out
+
+
+def _compare_gather(ctx, out, vals, shifts, lo, sign, what):
+    """out == gather reference (plus the zero-padded original when sign is given), in chunks of rows."""
+    nr, width = out.shape
+    n = len(vals)
+    orig = None
+    if sign is not None:
+        orig = np.zeros(width)
+        orig[:n] = vals
+    step = max(1, int(2e6 // max(1, width)))
+    for r0 in range(0, nr, step):
+        r1 = min(nr, r0 + step)
+        want = _gather_rows(vals, shifts, lo, width, r0, r1)
+        if orig is not None:
+            want = orig[None, :] + sign * want
+        got = out[r0:r1]
+        if not np.array_equal(got, want):
+            bad = np.argwhere(got != want)
+            i, j = int(bad[0][0]), int(bad[0][1])
+            ctx.fail("%s: row %d (shift %d) column %d is %r, expected %r (%d of %d entries of rows %d..%d differ)" % (
+                what, r0 + i, int(shifts[r0 + i]), j, got[i, j], want[i, j], len(bad), got.size, r0, r1 - 1))
+
+
+_validate_gather()
